@@ -2,6 +2,7 @@
 #include "harness.h"
 #include "kernel.h"
 
+#include <algorithm>
 #include <errno.h>
 #include <fcntl.h>
 #include <stdarg.h>
@@ -14,12 +15,72 @@
 
 namespace simfs {
 
+static const uint64_t CHUNK = 1ull << 20;
+static const uint64_t SPARSE_LIMIT = 64ull << 20;
+
 struct File
 {
     std::vector<uint8_t> data;
+    // sparse representation (data is empty then)
+    bool sparse = false;
+    uint64_t ssize = 0;
+    std::map<uint64_t, std::vector<uint8_t>> chunks; // index -> CHUNK bytes
     int locked_by = -1; // fd holding the flock
     uint64_t gen = 0;
+
+    uint64_t size() const { return sparse ? ssize : data.size(); }
+    void clear()
+    {
+        data.clear();
+        chunks.clear();
+        sparse = false;
+        ssize = 0;
+    }
 };
+
+static bool
+all_zero(const uint8_t* p, size_t n)
+{
+    return n == 0 || (p[0] == 0 && memcmp(p, p + 1, n - 1) == 0);
+}
+
+static void
+sparse_write(File& f, uint64_t off, const uint8_t* buf, uint64_t n)
+{
+    uint64_t done = 0;
+    while (done < n) {
+        uint64_t pos = off + done;
+        uint64_t ci = pos / CHUNK, co = pos % CHUNK;
+        uint64_t k = std::min(n - done, CHUNK - co);
+        auto it = f.chunks.find(ci);
+        if (it == f.chunks.end()) {
+            if (!all_zero(buf + done, (size_t)k)) {
+                std::vector<uint8_t>& c = f.chunks[ci];
+                c.assign((size_t)CHUNK, 0);
+                memcpy(c.data() + co, buf + done, (size_t)k);
+            }
+        } else {
+            memcpy(it->second.data() + co, buf + done, (size_t)k);
+        }
+        done += k;
+    }
+    if (off + n > f.ssize)
+        f.ssize = off + n;
+}
+
+static void
+make_sparse(File& f)
+{
+    if (f.sparse)
+        return;
+    std::vector<uint8_t> old;
+    old.swap(f.data);
+    f.sparse = true;
+    f.ssize = 0;
+    if (!old.empty())
+        sparse_write(f, 0, old.data(), old.size());
+    f.ssize = old.size();
+}
 
 struct Desc
 {
@@ -142,7 +203,53 @@ const std::vector<uint8_t>*
 contents(const std::string& path)
 {
     auto it = S.files.find(normalize(path));
-    return it == S.files.end() ? nullptr : &it->second.data;
+    return it == S.files.end() || it->second.sparse ? nullptr
+                                                    : &it->second.data;
+}
+
+bool
+is_sparse(const std::string& path)
+{
+    auto it = S.files.find(normalize(path));
+    return it != S.files.end() && it->second.sparse;
+}
+
+uint64_t
+size(const std::string& path)
+{
+    auto it = S.files.find(normalize(path));
+    return it == S.files.end() ? UINT64_MAX : it->second.size();
+}
+
+bool
+read(const std::string& path, uint64_t off, uint64_t n, uint8_t* out)
+{
+    memset(out, 0, (size_t)n);
+    auto it = S.files.find(normalize(path));
+    if (it == S.files.end())
+        return false;
+    const File& f = it->second;
+    if (!f.sparse) {
+        if (off >= f.data.size())
+            return false;
+        uint64_t k = std::min<uint64_t>(n, f.data.size() - off);
+        memcpy(out, f.data.data() + off, (size_t)k);
+        return k > 0;
+    }
+    bool any = false;
+    uint64_t done = 0;
+    while (done < n && off + done < f.ssize) {
+        uint64_t pos = off + done;
+        uint64_t ci = pos / CHUNK, co = pos % CHUNK;
+        uint64_t k = std::min(std::min(n - done, CHUNK - co), f.ssize - pos);
+        auto c = f.chunks.find(ci);
+        if (c != f.chunks.end()) {
+            memcpy(out + done, c->second.data() + co, (size_t)k);
+            any = true;
+        }
+        done += k;
+    }
+    return any;
 }
 
 std::vector<std::string>
@@ -157,7 +264,9 @@ list()
 void
 put(const std::string& path, const std::vector<uint8_t>& data)
 {
-    S.files[normalize(path)].data = data;
+    File& f = S.files[normalize(path)];
+    f.clear();
+    f.data = data;
 }
 
 void
@@ -288,7 +397,7 @@ extern "C"
         }
         File& file = S.files[norm];
         if (flags & O_TRUNC)
-            file.data.clear();
+            file.clear();
         size_t fd = 3;
         while (fd < S.fds.size() && S.fds[fd].open)
             ++fd;
@@ -373,6 +482,13 @@ extern "C"
             errno = EBADF;
             return -1;
         }
+        if (off < 0) {
+            ev.result = -1;
+            ev.err = EINVAL;
+            S.log.push_back(ev);
+            errno = EINVAL;
+            return -1;
+        }
         Desc& d = S.fds[(size_t)fd];
         if (d.ctx != S.ctx) {
             ev.bad = true;
@@ -430,10 +546,17 @@ extern "C"
             count_fault("pwrite_short");
         }
         File& file = S.files[d.path];
-        if ((uint64_t)off + k > file.data.size())
-            file.data.resize((size_t)off + k, 0);
-        if (k)
-            memcpy(file.data.data() + off, buf, k);
+        if (!file.sparse && (uint64_t)off + k > SPARSE_LIMIT)
+            make_sparse(file);
+        if (file.sparse) {
+            sparse_write(file, (uint64_t)off, (const uint8_t*)buf, k);
+            sim::probe("n.fs_pwrite_sparse");
+        } else {
+            if ((uint64_t)off + k > file.data.size())
+                file.data.resize((size_t)off + k, 0);
+            if (k)
+                memcpy(file.data.data() + off, buf, k);
+        }
         file.gen++;
         ev.result = (int64_t)k;
         S.log.push_back(ev);
